@@ -42,6 +42,7 @@ MIN_REACH = {
     "histograms_compared": {"quick": 120, "thorough": 1200},
     "heatmap_cells_compared": {"quick": 300, "thorough": 5000},
     "slices_holding_infinite_values": {"quick": 30, "thorough": 500},
+    "figures_drawn_on_axes_given_by_the_caller": {"quick": 30, "thorough": 500},
 }
 TIME_BUDGET = {"quick": 500, "thorough": 3400}
 PROPS = ["color", "hue", "marker", "markersize", "markeredgecolor", "linewidth", "linestyle", "row", "col"]
@@ -254,6 +255,14 @@ def run_case(ctx, case):
         ctx.count("degenerate_skipped")
         ctx.observe(case, nontrivial=False)
         return
+    given_axs = None
+    if mode in ("lines", "heatmap") and case["dseed"] % 6 == 4:
+        # the caller supplies the grid of axes: "at least as many rows and columns as there are mapped dimensions" - here
+        # one spare column (and as many rows as the row dimension has coordinates, empty ones included)
+        rd_, cd_ = mapping.get("row"), mapping.get("col")
+        _, given_axs = plt.subplots(ds.sizes[rd_] if rd_ else 1, (ds.sizes[cd_] if cd_ else 1) + 1, squeeze=False)
+        kw["axs"] = given_axs
+        ctx.count("figures_drawn_on_axes_given_by_the_caller")
     try:
         with quiet():
             if mode == "lines":
@@ -321,7 +330,19 @@ def run_case(ctx, case):
     rowd, cold = mapping.get("row"), mapping.get("col")
     nrow = len(domain[rowd]) if rowd else 1
     ncol = len(domain[cold]) if cold else 1
-    if axs.shape != (nrow, ncol):
+    if given_axs is not None:
+        if axs is not given_axs and not (np.shape(axs) == given_axs.shape and all(a is b for a, b in zip(np.ravel(axs), given_axs.ravel()))):
+            bad.append("the axes returned are not the grid handed in")
+        elif nrow > given_axs.shape[0] or ncol >= given_axs.shape[1]:
+            bad.append("model error: the grid handed in is too small")
+        else:
+            axs = given_axs
+            spare = [(i, j) for i in range(given_axs.shape[0]) for j in range(given_axs.shape[1]) if i >= nrow or j >= ncol]
+            used = [(i, j) for (i, j) in spare if given_axs[i, j].lines or [c for c in given_axs[i, j].collections if type(c).__name__ == "QuadMesh"]]
+            if used:
+                bad.append("data was drawn into spare panels %s of the %s grid handed in (%d rows x %d columns are needed)" % (
+                    used, given_axs.shape, nrow, ncol))
+    elif axs.shape != (nrow, ncol):
         bad.append("axes grid %s, expected %s (rows over %r %s, cols over %r %s)" % (axs.shape, (nrow, ncol), rowd, domain.get(rowd), cold, domain.get(cold)))
     xs = np.asarray(work["x"].values, dtype=float) if mode != "hist" else None
 
@@ -430,6 +451,8 @@ def run_case(ctx, case):
                 # panel title names the panel's coordinates
                 texts = " | ".join(t.get_text() for t in ax.texts)
                 for dd, idx in ((rowd, i), (cold, j)):
+                    if given_axs is not None:
+                        break       # (axes handed in by the caller are not formatted or titled unless asked)
                     if dd and ("=%s" % (domain[dd][idx],)) not in texts:
                         bad.append("panel (%d, %d) is not titled with %s=%s (texts: %r)" % (i, j, dd, domain[dd][idx], texts))
         # styles: equal coordinate -> equal value; different -> different (while distinct defaults remain)
